@@ -113,6 +113,14 @@ func ewValues(c *core.Ctx, t reflect.Type, n int, class string, which int) []int
 			return gen.SmallInts(t, n, c.Rng, 1, 9)
 		}
 		return gen.FromPool(pool, n, c.Rng)
+	case "neg": // negatives, zero and positives
+		out := gen.SmallInts(t, n, c.Rng, -6, 6)
+		if n > 0 {
+			out[c.Rng.Intn(n)] = model.Zero(t)
+		}
+		return out
+	case "eqmix": // small range: many equal pairs
+		return gen.SmallInts(t, n, c.Rng, 1, 4)
 	case "tiny": // values 0..6 whose results are representable in every numeric type (C17)
 		if which == 0 {
 			return gen.SmallInts(t, n, c.Rng, 3, 6)
